@@ -38,7 +38,8 @@ _ALL = {
                      "(size, count, sum, mean=sum/count, min, max, first, last); op->kernel->reducer dispatch by constant "
                      "propagation; mean is computed from sums and counts after margins; the observed-label filter is fed by "
                      "key counts with one container kind; null writer/reader tables agree; null-code guard and row counter "
-                     "in the reduction loop."),
+                     "in the reduction loop."
+                     ' Also: merges of partial results receive and skip by counts (M1, M2, D2); pointer lookups and slice-start normalisation on chunked keys (M5, M6); a key already cut by a slice is never paired with the raw mask (M8); the null code survives every re-mapping (K2); the per-group count array of the reduction loop is 64 bit (K4).'),
         not_decided=["that _group_by_reduce visits every selected row exactly once beyond K1/K6 (loop-bound arithmetic)",
                      "label-set equality with pandas; polars/arrow conversions (third party)"],
         technique="GCNF decision tables vs spec tables; constant-propagated dispatch; fact-walker dominance; path rules",
@@ -49,7 +50,8 @@ _ALL = {
                      "position and preserved by every code re-mapping (K2); every factorization route tests the key for null "
                      "before an ordering comparison decides its code or delegates to a library call documented to emit the "
                      "sentinel (F1); pointer tables are built against the final label index (P7); the counting sort and code "
-                     "combination guard the null code (K1) and advance their row counter unconditionally (K6)."),
+                     "combination guard the null code (K1) and advance their row counter unconditionally (K6)."
+                     ' Also: identifier arrays never take their width from an input and counter tables handed to kernels are wide (K4b); the chunk-wise label union keeps first-appearance order and every pointer table is a get_indexer lookup (P7b); RangeIndex offsets are divided by the step unless it is exactly 1 (F1b).'),
         not_decided=["that equal keys get equal codes and unequal keys different codes (delegated to pd.factorize / arrow "
                      "dictionary_encode / mixed-radix arithmetic incl. int64 overflow of the cartesian product)",
                      "ascending positions inside groups (counting-sort arithmetic)"],
@@ -61,7 +63,8 @@ _ALL = {
                      "accumulated count (M1) which is updated after the merge (M2); parallel_map places results by submission "
                      "index (M3); all row-aligned arrays are split by one splitter (M4); pointer lookups are offset by the "
                      "first chunk in the mask (M5); merge reducers are MERGE[class] (D2); every consumer of global codes is "
-                     "dominated by unification (S2)."),
+                     "dominated by unification (S2)."
+                     ' Also: null-code preservation (K2); slice-start normalisation (M6); order-preserving label union and looked-up pointer tables (P7b); per-thread chunks cover the whole array (P18).'),
         not_decided=["floating-point agreement of sums/means", "the 1,000,000-row thresholds (constants)",
                      "thread schedules are covered structurally by M3, not explored"],
         technique="call-site binding rules, def-use on the completion loop, typestate of the key representation",
@@ -73,7 +76,8 @@ _ALL = {
                      "accepted values, selection reducers return one of their operands, merge classes are closed (T2); both "
                      "merge sites fold to MERGE[class] (D2), count arrays are merged for counting ops (D6); mask-kind dispatch "
                      "shape (D8); merges see and update the accumulated count (M1, M2); one splitter (M4); negative codes "
-                     "are skipped (K1)."),
+                     "are skipped (K1)."
+                     ' Also: the per-group count array of the reduction loop is 64 bit (K4).'),
         not_decided=["exhaustive small-scope enumeration (a dynamic technique)",
                      "behaviour of out-of-range positive positions beyond the presence of the bounds check"],
         technique="GCNF decision tables + algebraic laws on tables; dispatch folding; call-site rules",
@@ -84,7 +88,8 @@ _ALL = {
                      "state on a path where the row is not provably selected is an identity (K3, path enumeration with a "
                      "symbolic store); the mask is forwarded at every delegation that has one (A3m); slice masks are applied "
                      "to keys and values together and mask chunks/pointers are offset consistently (M4, M5); the observed "
-                     "filter is recomputed under the mask (P3)."),
+                     "filter is recomputed under the mask (P3)."
+                     ' Also: slice start normalised before the first chunk is located (M6); row-aligned inputs of one kernel call are re-ordered by one indexer (M7); a sliced key is never paired with the raw mask (M8); in the timed EMA the clock moves exactly where the state was decayed (E3).'),
         not_decided=["slice arithmetic with negative/None bounds", "fancy->boolean conversion",
                      "equality with the filtered run as a two-execution relation"],
         technique="path enumeration + symbolic identity detection; parameter-forwarding rule over resolved call sites",
@@ -102,7 +107,8 @@ _ALL = {
         want=["P5", "P6", "S2", "P11", "P2", "D2", "D6b", "K2", "P12", "P5b"],
         explanation=("Decides that transform indexes code-ordered arrays only: the base of every subscript indexed by the row "
                      "codes carries no sort-permutation taint (P5), has a null slot (P6), is indexed after unification (S2), "
-                     "and the transform path restores the input's index/container (P11)."),
+                     "and the transform path restores the input's index/container (P11)."
+                     ' Also: merge classes (D2), null-code preservation (K2), polars receives datetime results as integers only without null sentinel (P12), label-sorted arrays are filtered only by selectors in label-sorted order (P5b).'),
         not_decided=["value equality of broadcast and reduction beyond the index-space argument (the reduction itself is C01)"],
         technique="taint analysis of index spaces; typestate; path rule",
     ),
@@ -112,7 +118,8 @@ _ALL = {
                      "the running value is read from the output at the group's previous accepted row (U1) and per-group "
                      "bookkeeping is updated only on accepted rows (U2); null keys skipped (K1), masked rows do not interfere "
                      "(K3); accumulator dtype table has no float detour (T3); temporal cast/restore pairing on all paths "
-                     "(P1); null-key post-fill (P8); cum-op -> reducer dispatch (D4)."),
+                     "(P1); null-key post-fill (P8); cum-op -> reducer dispatch (D4)."
+                     ' Also: the cumulative count array is at least 32 bit (K4).'),
         not_decided=["'last cumulative value equals the reduction' as a value relation (follows by induction, not performed)"],
         technique="GCNF tables; loop-body obligations; path pairing rule",
     ),
@@ -120,7 +127,8 @@ _ALL = {
         want=["K1@rolling", "K3@rolling", "K4@rolling", "K5", "D3", "P10", "P11b", "D3b"],
         explanation=("Decides the periphery of the rolling kernels, not the window arithmetic: null/mask guards (K1, K3); "
                      "counter width (K4); dtype provenance on selection paths so min/max/shift return input elements exactly "
-                     "(K5); op -> kernel/flag dispatch and flag -> orientation (D3); restoration keeps the input's time unit (P10)."),
+                     "(K5); op -> kernel/flag dispatch and flag -> orientation (D3); restoration keeps the input's time unit (P10)."
+                     " Also: the comparison with the running extremum is guarded by the group's non-null count (D3b); group-sorted results are indexed by the inputs' common index (P11b)."),
         not_decided=["circular-buffer arithmetic (eviction, wrap, recomputation of the extremum, min_periods) — loop "
                      "invariants over runtime quantities", "the group-sorted layout"],
         technique="fact walker, path enumeration, dtype-provenance classification, dispatch folding",
@@ -130,7 +138,8 @@ _ALL = {
         explanation=("Decides the periphery of the EMA, not the closed form: null-key guard in the grouped kernels (K1); "
                      "invalid rows read the group's own carried value (E2); the halflife->alpha conversion is the same "
                      "function of the raw parameter in both entry points (E1); the alignment decorator names real "
-                     "parameters (A2); masked rows (K3, with the documented exemption and known finding)."),
+                     "parameters (A2); masked rows (K3, with the documented exemption and known finding)."
+                     ' Also: the time-weighted kernel advances the clock exactly where it decays (E3, both directions); the alpha kernels multiply the running state by beta exactly once on every row path (E4); row-aligned inputs are re-ordered by one indexer (M7).'),
         not_decided=["the closed form, alpha/beta arithmetic, time decay, equality of grouped and ungrouped series"],
         technique="fact walker; expression normal-form comparison; decorator-name rule",
     ),
@@ -138,7 +147,8 @@ _ALL = {
         want=["P4", "P9", "P7b", "P11b", "P13", "M5", "P5b"],
         explanation=("Decides two structural necessary conditions: the sort permutation derived from the labels reaches the "
                      "result and count frames on every non-transform path (P4); key names are assigned on every constructing "
-                     "path (P9)."),
+                     "path (P9)."
+                     ' Also: first-appearance order of the chunk-wise label union (P7b); common index of group-sorted results (P11b); generated names only for None (P13); pointer offsets (M5); selector index space (P5b).'),
         not_decided=["actual order, category order, lexicographic order, column independence (value-level)"],
         technique="path rules over _apply_gb_reduction / __init__",
     ),
@@ -146,7 +156,8 @@ _ALL = {
         want=["P1", "T2", "T3", "K5", "P10", "K4b", "P12", "F1b", "P7b", "M7", "P17"],
         explanation=("Decides the dtype/exactness clauses: temporal cast<->restore pairing on all paths (P1); selection "
                      "reducers never do arithmetic on values (T2-L4); accumulator dtype table (T3); dtype provenance in "
-                     "rolling selection paths (K5); unit-preserving restoration (P10)."),
+                     "rolling selection paths (K5); unit-preserving restoration (P10)."
+                     ' Also: identifier widths (K4b); polars NaT preservation (P12); RangeIndex step (F1b); container-independent label order (P7b); one permutation (M7); value columns are never stacked into one array (P17).'),
         not_decided=["equivalence of containers (third-party conversions)", "integer-sum wrap beyond the accumulator dtype table"],
         technique="path pairing; table laws; dtype provenance",
     ),
@@ -155,7 +166,8 @@ _ALL = {
         explanation=("Decides history independence structurally: finite typestate interpretation of the key-representation "
                      "mutator from every state (S1); every consumer of global codes sees global codes (S2); every attribute "
                      "read by a method is initialised on every constructor path (S3); logical attributes are assigned only "
-                     "during construction (S4)."),
+                     "during construction (S4)."
+                     ' Also: null-code preservation in the unifier (K2); a sliced key is never paired with the raw mask (M8); the copy constructor takes every attribute from the source (S3b).'),
         not_decided=["equality of outputs across histories as a value relation (implied by the above)"],
         technique="finite abstract interpretation (typestate), definite-assignment, mutation containment",
     ),
@@ -163,21 +175,24 @@ _ALL = {
         want=["A8", "P2", "T3", "A3x", "P14", "P15", "P16"],
         explanation=("Decides the periphery of margins: imports on the margin path resolve in the pinned environment (A8); "
                      "margins are applied to sums and counts before the division (P2); margin aggregator table (T3); crosstab "
-                     "forwards mask/margins/aggfunc (A3x)."),
+                     "forwards mask/margins/aggfunc (A3x)."
+                     ' Also: complementary row/column level split (P14); margin rows written by assignment, not by a null-skipping writer (P15); the nested-subtotal recursion runs for every requested level (P16).'),
         not_decided=["add_row_margin re-aggregation/re-indexing arithmetic, unstacking and column order"],
         technique="link check; path rule; table; forwarding rule",
     ),
     "C15": dict(
         want=["K4@rowsel", "K1@rowsel", "A1", "R1", "P17"],
         explanation=("Decides the stated failure modes: per-group row counters are wide enough (K4); null-key rows are never "
-                     "selected (K1); selection inputs are validated against the keys (A1)."),
+                     "selected (K1); selection inputs are validated against the keys (A1)."
+                     ' Also: the backward scan of tail is flipped back (R1); the selected columns are not stacked into one array (P17).'),
         not_decided=["that the scan picks the n-th occurrence (seen[k] == n arithmetic)", "index restoration"],
         technique="allocation-width rule; fact walker; must-validate",
     ),
     "C16": dict(
         want=["A3c", "D7", "P5b", "P20"],
         explanation=("Decides composition consistency: composites forward every semantic parameter to the primitives they are "
-                     "defined by (A3c); var uses the three primitives with one shared keyword set and std delegates to var (D7)."),
+                     "defined by (A3c); var uses the three primitives with one shared keyword set and std delegates to var (D7)."
+                     ' Also: label-sorted arrays are filtered only by selectors in the same order (P5b); the composites apply no null-suppressing function (P20).'),
         not_decided=["variance accuracy, quantile equality with NumPy, apply semantics, densities summing to 100"],
         technique="parameter-forwarding over resolved call sites",
     ),
@@ -208,7 +223,8 @@ _ALL = {
         want=["T1b", "D5", "P1", "N1", "P18", "P19"],
         explanation=("Decides the structure of the stand-alone reducers: binary reducer tables (T1b); reducer name -> (initial "
                      "value, chunk-combine reducer) table and null-skipping combine stage (D5); view/convert pairing in "
-                     "reduce_1d (P1); null-skip shape of the chunk reducer (N1)."),
+                     "reduce_1d (P1); null-skip shape of the chunk reducer (N1)."
+                     ' Also: the prologue of _nb_reduce (start index and accumulator per case, all-null exit) and the first-non-null scan (N1); per-thread chunks cover the array (P18); the array handed to searchsorted is sorted on every path (P19).'),
         not_decided=["equality with NumPy, 2-D axis handling, nb_dot, bools_to_categorical, pretty_cut (value-level)"],
         technique="GCNF tables; dispatch folding; path pairing",
     ),
